@@ -459,6 +459,10 @@ func (s *storage) createTable(archetype *archetype, relations []relationID) *tab
 		s.checkRelationComponent(rel.component)
 		s.checkRelationTarget(rel.target)
 	}
+	// Register the targets together with their table: if the calling operation is rejected
+	// later (e.g. a batch whose second table is not eligible), the table remains,
+	// and removing the target must still clean it up.
+	s.registerTargets(relations)
 
 	var newTableID tableID
 	recycled := false
